@@ -69,17 +69,35 @@ fn gamma(a: Decimal) -> Decimal {
     }
 }
 
+fn out_of_range() -> Box<dyn error::Error> {
+    "The result is not representable as a Decimal".into()
+}
+
+fn undefined() -> Box<dyn error::Error> {
+    "The operation is not defined for these operands".into()
+}
+
 pub fn eval(expr: Node) -> Result<Decimal, Box<dyn error::Error>> {
     #[cfg(feature = "verif_hooks")]
     crate::verif_hooks::tick(2);
     use self::Node::*;
     match expr {
         Number(i) => Ok(i),
-        Add(expr1, expr2) => Ok(eval(*expr1)? + eval(*expr2)?),
-        Subtract(expr1, expr2) => Ok(eval(*expr1)? - eval(*expr2)?),
-        Multiply(expr1, expr2) => Ok(eval(*expr1)? * eval(*expr2)?),
-        Divide(expr1, expr2) => Ok(eval(*expr1)? / eval(*expr2)?),
-        Modulo(expr1, expr2) => Ok(eval(*expr1)? % eval(*expr2)?),
+        Add(expr1, expr2) => eval(*expr1)?
+            .checked_add(eval(*expr2)?)
+            .ok_or_else(out_of_range),
+        Subtract(expr1, expr2) => eval(*expr1)?
+            .checked_sub(eval(*expr2)?)
+            .ok_or_else(out_of_range),
+        Multiply(expr1, expr2) => eval(*expr1)?
+            .checked_mul(eval(*expr2)?)
+            .ok_or_else(out_of_range),
+        Divide(expr1, expr2) => eval(*expr1)?
+            .checked_div(eval(*expr2)?)
+            .ok_or_else(undefined),
+        Modulo(expr1, expr2) => eval(*expr1)?
+            .checked_rem(eval(*expr2)?)
+            .ok_or_else(undefined),
         Negative(expr1) => Ok(-(eval(*expr1)?)),
         Abs(sub_expr) => Ok(eval(*sub_expr)?.abs()),
         Floor(sub_expr) => Ok(eval(*sub_expr)?.floor()),
@@ -87,12 +105,24 @@ pub fn eval(expr: Node) -> Result<Decimal, Box<dyn error::Error>> {
         Round(sub_expr) => Ok(eval(*sub_expr)?.round()),
         Truncate(sub_expr) => Ok(eval(*sub_expr)?.trunc()),
         Sign(sub_expr) => Ok(eval(*sub_expr)?.signum()),
-        Ln(sub_expr) => Ok(eval(*sub_expr)?.ln()),
-        Lb(sub_expr) => Ok(eval(*sub_expr)?.ln() / Decimal::new(2, 0).ln()),
-        Exp(sub_expr) => Ok(eval(*sub_expr)?.exp()),
-        Exp2(sub_expr) => Ok(Decimal::new(2, 0).powd(eval(*sub_expr)?)),
-        Pow(expr1, expr2) => Ok(eval(*expr1)?.powd(eval(*expr2)?)),
-        Log(expr1, expr2) => Ok(eval(*expr1)?.ln() / eval(*expr2)?.ln()),
+        Ln(sub_expr) => eval(*sub_expr)?.checked_ln().ok_or_else(undefined),
+        Lb(sub_expr) => eval(*sub_expr)?
+            .checked_ln()
+            .ok_or_else(undefined)?
+            .checked_div(Decimal::new(2, 0).ln())
+            .ok_or_else(out_of_range),
+        Exp(sub_expr) => eval(*sub_expr)?.checked_exp().ok_or_else(out_of_range),
+        Exp2(sub_expr) => Decimal::new(2, 0)
+            .checked_powd(eval(*sub_expr)?)
+            .ok_or_else(out_of_range),
+        Pow(expr1, expr2) => eval(*expr1)?
+            .checked_powd(eval(*expr2)?)
+            .ok_or_else(out_of_range),
+        Log(expr1, expr2) => {
+            let numerator = eval(*expr1)?.checked_ln().ok_or_else(undefined)?;
+            let denominator = eval(*expr2)?.checked_ln().ok_or_else(undefined)?;
+            numerator.checked_div(denominator).ok_or_else(undefined)
+        }
         Factorial(sub_expr) => {
             let sub_result = eval(*sub_expr)?;
             if sub_result >= Decimal::ZERO {
@@ -100,10 +130,12 @@ pub fn eval(expr: Node) -> Result<Decimal, Box<dyn error::Error>> {
                     Ok(gamma(sub_result + Decimal::new(1, 0)))
                 } else {
                     let mut factorial_result = Decimal::new(1, 0);
-                    for i in 2..=sub_result.to_i64().unwrap() {
+                    for i in 2..=sub_result.to_i64().ok_or_else(out_of_range)? {
                         #[cfg(feature = "verif_hooks")]
                         crate::verif_hooks::tick(3);
-                        factorial_result *= Decimal::new(i, 0);
+                        factorial_result = factorial_result
+                            .checked_mul(Decimal::new(i, 0))
+                            .ok_or_else(out_of_range)?;
                     }
                     Ok(factorial_result)
                 }
@@ -150,7 +182,14 @@ pub fn eval(expr: Node) -> Result<Decimal, Box<dyn error::Error>> {
             Some(result) => Ok(result),
             None => Err("Unable to compute the square root of negative number".into()),
         },
-        Root(n_th_expr, x_expr) => Ok(eval(*x_expr)?.powd(Decimal::new(1, 0) / eval(*n_th_expr)?)),
+        Root(n_th_expr, x_expr) => {
+            let exponent = Decimal::new(1, 0)
+                .checked_div(eval(*n_th_expr)?)
+                .ok_or_else(undefined)?;
+            eval(*x_expr)?
+                .checked_powd(exponent)
+                .ok_or_else(out_of_range)
+        }
         Min(args) => {
             if args.len() > 1 {
                 let mut result = Decimal::MAX;
@@ -180,11 +219,20 @@ pub fn eval(expr: Node) -> Result<Decimal, Box<dyn error::Error>> {
             }
         }
         Avg(args) => {
-            let mut result = Decimal::ZERO;
+            let len = Decimal::new(args.len() as i64, 0);
+            let mut values = vec![];
             for arg in <Vec<Node> as Clone>::clone(&args).into_iter() {
-                result += eval(arg)?;
+                values.push(eval(arg)?);
             }
-            Ok(result / Decimal::new(args.len() as i64, 0))
+            let mut sum = Some(Decimal::ZERO);
+            for value in values.iter() {
+                sum = sum.and_then(|s| s.checked_add(*value));
+            }
+            match sum {
+                Some(sum) => Ok(sum / len),
+                // the sum leaves the Decimal range although the mean does not
+                None => Ok(values.iter().map(|value| *value / len).sum()),
+            }
         }
         Med(args) => {
             let mut results = vec![];
@@ -194,7 +242,11 @@ pub fn eval(expr: Node) -> Result<Decimal, Box<dyn error::Error>> {
             results.sort_by(|a, b| a.partial_cmp(b).unwrap_or(std::cmp::Ordering::Equal));
             let len = results.len();
             if len % 2 == 0 {
-                Ok((results[len >> 1] + results[(len >> 1) - 1]) / Decimal::new(2, 0))
+                let two = Decimal::new(2, 0);
+                match results[len >> 1].checked_add(results[(len >> 1) - 1]) {
+                    Some(sum) => Ok(sum / two),
+                    None => Ok(results[len >> 1] / two + results[(len >> 1) - 1] / two),
+                }
             } else {
                 Ok(results[len >> 1])
             }
